@@ -10,6 +10,7 @@ from bfsa.exc import ExcAnalysis
 from bfsa.guard import disjuncts, dominates, raise_rel, rel, show_rel, unsnap
 from bfsa.layout import builtin_call, is_call_named, meth_call
 from bfsa.length import lin, lin_eq
+from bfsa.heap import Unsupported
 from bfsa.load import AnalysisError
 from bfsa.symexec import Exec
 from bfsa.terms import C, NONE, Term, cval, is_const, mk, show, subterms
@@ -105,6 +106,149 @@ def verify_rules(prog, chk, pid):
             okx, whyx = False, "the sum u1*G + u2*Q is used without being compared with INFINITY: for r = -e/d mod n it is the point at infinity, x() is None and `None % n` raises TypeError instead of the signature being refused"
     chk.require(okx, P("verify-infinity-refused"), fi.qualname, "xy == INFINITY -> return False, before xy.x() % n", where,
                 "a signature for which u1*G + u2*Q is the point at infinity is refused (SEC 1, 4.1.4 step 5) before the x coordinate is taken", whyx)
+
+
+def rfc6979_walk_rule(prog, chk, pid):
+    """RFC 6979 section 3.2 decided on the behaviour of generate_k, whatever its code looks like: the function is interpreted on concrete control (orders of two bit lengths,
+    SHA-256 / SHA-1 digest sizes, 0 / 5 extra bytes, retry counts 0 and 1) with HMAC as an uninterpreted function of (key bytes, message bytes), int2octets / bits2octets
+    replaced by symbolic octet strings and bits2int by a scripted sequence of candidates (too small, too large, acceptable, ...).  Every T handed to bits2int must be the
+    concatenation of V blocks the RFC prescribes at that point -- which fixes every K and V update before it -- and the value returned must be the candidate the RFC accepts."""
+    from bfsa.exprs import sb_items, sbytes
+    from bfsa.terms import sym
+
+    P = lambda s_: "%s.%s" % (pid, s_)
+    fi = prog.func(E + "rfc6979.generate_k")
+    where = "%s:%d" % (fi.file, fi.lineno)
+    HL = {"hashlib.sha256": 32, "hashlib.sha1": 20}
+
+    def H(key, msg, holen):
+        u = mk("uf", "hmac", tuple(key), tuple(msg))
+        return [mk("byteof", u, holen, i) for i in range(holen)]
+
+    cases = []
+    # bit lengths that are not multiples of 8 (so that rolen = ceil(qlen / 8) differs from qlen // 8) and that need one resp. two V blocks
+    for order in (0x1FFF1, (1 << 262) + 9):
+        for hname in ("hashlib.sha256", "hashlib.sha1"):
+            for nextra in (0, 5):
+                for retry in (0, 1):
+                    cases.append((order, hname, nextra, retry))
+    bad = None
+    n_t = 0
+    for order, hname, nextra, retry in cases:
+        holen = HL[hname]
+        qlen = order.bit_length()
+        rolen = (qlen + 7) // 8
+        xo = [sym("x%d_" % i) for i in range(rolen)]
+        ho = [sym("h%d_" % i) for i in range(rolen)]
+        extra = [sym("e%d_" % i) for i in range(nextra)]
+        script = [0, order, order + 5, 7, 9]  # rejected (< 1), rejected (= q), rejected (> q), acceptable, acceptable
+        log = {"t": [], "n2s": [], "b2o": [], "digestmod": []}
+        hash_t = mk("ext", hname)
+
+        def items_of(ex, t, st):
+            it = ex.iter_items(t, st)
+            if it is None:
+                it = sb_items(unsnap(t))
+            if it is None:
+                raise Unsupported("HMAC over bytes that are not known item by item: %s" % show(t, 4)[:100])
+            return [unsnap(x) for x in it]
+
+        def h_new(ex, args, kwargs, st, node):
+            r = ex.new_obj(st, "obj", label="hmac")
+            o = ex.obj(st, r)
+            key = args[0] if args else kwargs.get("key")
+            msg = args[1] if len(args) > 1 else kwargs.get("msg")
+            dm = args[2] if len(args) > 2 else kwargs.get("digestmod")
+            log["digestmod"].append(dm)
+            o.attrs["#key"] = mk("tuple", tuple(items_of(ex, key, st)))
+            o.attrs["#msg"] = mk("tuple", tuple(items_of(ex, msg, st) if msg is not None and unsnap(msg) is not NONE else []))
+            return r
+
+        def h_meth(ex, recv, name, args, kwargs, st, node):
+            o = ex.obj(st, recv)
+            if name == "update":
+                o.attrs["#msg"] = mk("tuple", tuple(list(unsnap(o.attrs["#msg"]).args[0]) + items_of(ex, args[0], st)))
+                return NONE
+            if name == "digest":
+                return sbytes(H(unsnap(o.attrs["#key"]).args[0], unsnap(o.attrs["#msg"]).args[0], holen))
+            raise Unsupported("HMAC method %s" % name)
+
+        def h_n2s(ex, fi_, args, kwargs, st, node):
+            log["n2s"].append([unsnap(a) for a in args])
+            return sbytes(xo)
+
+        def h_b2o(ex, fi_, args, kwargs, st, node):
+            log["b2o"].append([unsnap(a) for a in args])
+            return sbytes(ho)
+
+        def h_b2i(ex, fi_, args, kwargs, st, node):
+            log["t"].append((items_of(ex, args[0], st), unsnap(args[1])))
+            if len(log["t"]) > len(script):
+                raise Unsupported("more candidates requested than the scenario provides")
+            return C(script[len(log["t"]) - 1])
+
+        ex = Exec(prog, policy=lambda e, f, d: f.module.name.startswith(E.rstrip(".")) and d < 8)
+        ex.sym_bytes = True
+        ex.ext_hooks = {"hmac.new": h_new}
+        ex.hmac_model = h_meth
+        ex.summaries = {E + "util.number_to_string": h_n2s, E + "rfc6979.bits2octets": h_b2o, E + "rfc6979.bits2int": h_b2i}
+        data = sbytes([sym("d%d_" % i) for i in range(holen)])
+        try:
+            res = ex.run(fi, args={"order": C(order), "secexp": mk("param", "secexp"), "hash_func": hash_t, "data": data, "retry_gen": C(retry), "extra_entropy": sbytes(extra) if nextra else C(b"")})
+        except Unsupported as u:
+            raise AnalysisError("generate_k not interpretable on concrete control (order %d bits, %s): %s" % (qlen, hname, u))
+        label = "order of %d bits, %s, %d extra byte(s), retry_gen=%d" % (qlen, hname.split(".")[1], nextra, retry)
+        # reference
+        V = [C(1)] * holen
+        K = [C(0)] * holen
+        tail = xo + ho + extra
+        K = H(K, V + [C(0)] + tail, holen)
+        V = H(K, V, holen)
+        K = H(K, V + [C(1)] + tail, holen)
+        V = H(K, V, holen)
+        want_t = []
+        left = retry
+        want_ret = None
+        for cand in script:
+            T = []
+            while len(T) < rolen:
+                V = H(K, V, holen)
+                T += V
+            want_t.append(T)
+            if 1 <= cand < order:
+                if left <= 0:
+                    want_ret = cand
+                    break
+                left -= 1
+            K = H(K, V + [C(0)], holen)
+            V = H(K, V, holen)
+        n_t += len(want_t)
+        if res.dead or res.ret is None:
+            bad = bad or (label, "raises instead of returning a nonce")
+            continue
+        got_t = log["t"]
+        if not (is_const(unsnap(res.ret)) and cval(unsnap(res.ret)) == want_ret):
+            bad = bad or (label, "returns %s for the candidate sequence %s; RFC 6979 returns %s (first acceptable candidate after skipping retry_gen of them)" % (show(res.ret, 3), script, want_ret))
+            continue
+        if len(got_t) != len(want_t):
+            bad = bad or (label, "%d candidates are drawn, RFC 6979 draws %d" % (len(got_t), len(want_t)))
+            continue
+        for i_, ((gt, gq), wt) in enumerate(zip(got_t, want_t)):
+            if not (is_const(gq) and cval(gq) == qlen):
+                bad = bad or (label, "candidate %d is cut to %s bits, qlen is %d" % (i_ + 1, show(gq, 2), qlen))
+                break
+            if len(gt) != len(wt) or any(a is not b for a, b in zip(gt, wt)):
+                bad = bad or (label, "T of candidate %d (%d bytes) is not the concatenation of the V blocks RFC 6979 prescribes at that point (%d bytes): a K / V update before it deviates" % (i_ + 1, len(gt), len(wt)))
+                break
+        if not all(unsnap(d_) is hash_t for d_ in log["digestmod"] if d_ is not None) or any(d_ is None for d_ in log["digestmod"]):
+            bad = bad or (label, "an HMAC is computed with a hash other than hash_func")
+        if not (log["n2s"] and all(len(a) == 2 and a[0].op == "param" and a[0].args[0] == "secexp" and is_const(a[1]) and cval(a[1]) == order for a in log["n2s"])):
+            bad = bad or (label, "int2octets is not number_to_string(secexp, order)")
+        if not (log["b2o"] and all(len(a) == 2 and a[0] is unsnap(data) and is_const(a[1]) and cval(a[1]) == order for a in log["b2o"])):
+            bad = bad or (label, "bits2octets is not applied to (data, order)")
+    chk.require(bad is None, P("rfc6979-walk"), fi.qualname, "%d scenarios, %d candidate draws, HMAC uninterpreted" % (len(cases), n_t), where,
+                "every candidate is bits2int of exactly the V blocks RFC 6979 3.2 prescribes (steps B-H, K/V updated after every rejected or skipped candidate), the first acceptable candidate after retry_gen skips is returned",
+                "%s: %s" % bad if bad else "")
 
 
 def _is_retry_counter(ex, t) -> bool:
@@ -772,6 +916,9 @@ def run(prog, chk, tier):
     canon_rules(prog, chk, "C18")
     digest_rules(prog, chk, "C18")
     rfc6979_rules(prog, chk, "C18")
+    stackrt.guarded(chk, "C18.rfc6979-walk", rfc6979_walk_rule, prog, chk, "C18")
+    # the script rule reads one way of writing the steps (local K, V, T and two nested loops); the walk decides the same clause on the function's behaviour
+    chk.shape_fallback("rfc6979-script", ["rfc6979-walk"], "HMAC chain replayed on concrete control")
     hash_consistency_rules(prog, chk, "C18")
     # the verdict is computed by PointJacobi.mul_add: its digit selection, fallbacks and the addition dispatcher (both encodings of infinity occur among the
     # precomputed sums when the public point is +-G or a small multiple) are necessary conditions of "a signature verifies under the matching key"
